@@ -1,8 +1,10 @@
 open Model
 open Conv
 
-(* case:  cell <kind> <preload> <limit> <passes> <n> <consumers> <cancel>
-   obs :  <count> <seq> <closed|blocked> <run class> *)
+(* case:  cell <kind> <preload> <limit> <passes> <n> <consumers> <cancel> [<eof> [<fs>]]
+   obs :  <count> <seq> <closed|blocked> <run class> <handles h<opens>/<closes>/<late> | ->
+   The prediction is the run of the model WITH the handle of the ammo file (Model/ProviderFile.v
+   run_file) on the kind of file system of the case; the verdict is spec_b on the observation. *)
 
 let kind_of (k : string) (preload : bool) : pkind =
   match k with
@@ -33,11 +35,19 @@ let out_class (o : outcome) : string =
 let seq_string (l : int list) : string =
   if l = [] then "-" else String.concat "," (List.map string_of_int l)
 
-let render (sorted : bool) (r : result) : string =
+(* Run's result with the handle: a failed read of a closed handle / a failed deferred Close is
+   "file already closed" (os.ErrClosed) *)
+let fout_class (o : fout) : string =
+  match o with FAs o' -> out_class o' | FUseErr -> "err:closed" | FCloseErr _ -> "err:closed"
+
+let render (sorted : bool) (fr : fresult) : string =
+  let r = fr.f_base in
   let l = List.map int_of_nat (ids r.delivered) in
   let l = if sorted then List.sort compare l else l in
-  Printf.sprintf "%d %s %s %s" (List.length l) (seq_string l)
-    (if r.closed then "closed" else "blocked") (out_class r.out)
+  let h = fr.f_handle in
+  Printf.sprintf "%d %s %s %s h%d/%d/%d" (List.length l) (seq_string l)
+    (if r.closed then "closed" else "blocked") (fout_class fr.f_out)
+    (int_of_nat h.h_opens) (int_of_nat h.h_closes) (int_of_nat h.h_late)
 
 let runclass_of (s : string) : runclass =
   match s with "ok" -> ROk | "canceled" -> RCanceled | "hang" -> RHang | "construct" -> RRefused | _ -> RErr
@@ -45,7 +55,9 @@ let runclass_of (s : string) : runclass =
 
 let predict (c : string) (obs : string) : string * string * bool =
   match split_blank c with
-  | "cell" :: kind :: pre :: lim :: pas :: n :: cons :: cancel :: _eof ->   (* the EOF layout does not change the entries *)
+  | "cell" :: kind :: pre :: lim :: pas :: n :: cons :: cancel :: rest ->   (* the EOF layout does not change the entries *)
+      let fs = (match rest with [_eof; "1"] -> FsOS | _ -> FsMem) in
+      let run k cf es c fuel = run_file fs k cf es c fuel in
       let n = int_of_string n and lim = int_of_string lim and pas = int_of_string pas in
       let cons = int_of_string cons in
       let es = List.init n (fun i -> { e_tag = nat_of_int i; e_id = nat_of_int i }) in
@@ -54,7 +66,7 @@ let predict (c : string) (obs : string) : string * string * bool =
       let sorted = cons > 1 in
       let ocount, oseq, oafter, orun =
         (match split_blank obs with
-         | [a; b; c; d] -> (int_of_string a, b, c, d)
+         | a :: b :: c :: d :: _ -> (int_of_string a, b, c, d)
          | _ -> (0, "-", "?", "?")) in
       let obs_ids = if oseq = "-" then [] else List.map int_of_string (String.split_on_char ',' oseq) in
       let cancel_m = if cancel = "-" then None else Some (int_of_string cancel) in
@@ -63,7 +75,7 @@ let predict (c : string) (obs : string) : string * string * bool =
       let fuel = nat_of_int (50 * ((max ocount (match bnd with Some b -> b | None -> 0)) + n + 2)) in
       (* model: the context is seen cancelled once [ocount] items were sent, or not at all *)
       let pred =
-        if constructor_refuses k es then "0 - closed construct" else
+        if constructor_refuses k es then "0 - closed construct -" else
         (match cancel_m with
          | None -> render sorted (run k cf es None fuel)
          | Some _ ->
@@ -81,17 +93,20 @@ let predict (c : string) (obs : string) : string * string * bool =
          | Some b -> Printf.sprintf "want %d delivered (cyclic prefix), closed, run ok" b
          | None -> "want cyclic prefix, closed and prompt return after cancel") in
       (pred, verdict (ocount = List.length obs_ids && ok) why, (lim > 0 || pas > 0) && n >= 1)
-  | ["engine"; kind; pre; lim; pas; n; _inst] ->
+  | "engine" :: kind :: pre :: lim :: pas :: n :: _inst :: rest ->
+      let fs = (match rest with ["1"] -> FsOS | _ -> FsMem) in
       let n = int_of_string n and lim = int_of_string lim and pas = int_of_string pas in
       let es = List.init n (fun i -> { e_tag = nat_of_int i; e_id = nat_of_int i }) in
       let cf = { limit = nat_of_int lim; passes = nat_of_int pas; chosen = [] } in
       let k = kind_of kind (pre = "1") in
       let bnd = (match bound cf.limit cf.passes (nat_of_int n) with Some b -> int_of_nat b | None -> 0) in
-      let r = run k cf es None (nat_of_int (50 * (bnd + n + 2))) in
+      let fr = run_file fs k cf es None (nat_of_int (50 * (bnd + n + 2))) in
+      let r = fr.f_base in
       let l = List.sort compare (List.map int_of_nat (ids r.delivered)) in
-      (* the engine finishes successfully iff the provider ends Ok with its sink closed *)
+      (* the engine finishes successfully iff the provider's Run returns nil (the loop AND the
+         deferred Close of the ammo file) with its sink closed *)
       let pred = Printf.sprintf "%d %s %s %s" (List.length l) (seq_string l)
-          (if r.out = Ok && r.closed then "ok" else if r.closed then "err:" ^ out_class r.out else "hang")
+          (if f_clean fr && r.closed then "ok" else if r.closed then "err:" ^ fout_class fr.f_out else "hang")
           (if r.closed then "1" else "0") in
       let oshots, oseq, ores, owait =
         (match split_blank obs with [a; b; c; d] -> (int_of_string a, b, c, d) | _ -> (0, "-", "?", "?")) in
